@@ -61,6 +61,10 @@ pub enum FaultKind {
     SubstName(usize),
     SubstBits(usize),
     SubstKind(usize),
+    /// not a fault of one call (`at_call` is ignored): in EVERY answer, the entry at this
+    /// position belongs to a signal the test does not know (the device lists it instead of
+    /// the test signal the layout names there) - a consistent layout, legal
+    PermanentForeign(usize),
     /// value override at layout position
     Value(usize, OutVal),
 }
@@ -155,6 +159,11 @@ impl DutModel {
                 }),
                 FaultKind::SubstName(p) => base(*p).map(|mut s| {
                     s.name = format!("{}_x{fi}", s.name);
+                    s
+                }),
+                FaultKind::PermanentForeign(p) => base(*p).map(|mut s| {
+                    s.name = format!("{}_ext{fi}", s.name);
+                    s.kind = SigKind::Out;
                     s
                 }),
                 FaultKind::SubstBits(p) => base(*p).map(|mut s| {
@@ -265,10 +274,10 @@ impl DutModel {
             .faults
             .iter()
             .enumerate()
-            .filter(|(_, f)| f.at_call == call)
+            .filter(|(_, f)| f.at_call == call || matches!(f.kind, FaultKind::PermanentForeign(_)))
             .collect();
         for (_, f) in &faults {
-            if f.kind == FaultKind::Error {
+            if f.kind == FaultKind::Error && f.at_call == call {
                 return ModelAnswer::Err(f.id);
             }
         }
@@ -318,7 +327,10 @@ impl DutModel {
                         ans.swap(*p, *q);
                     }
                 }
-                FaultKind::SubstName(p) | FaultKind::SubstBits(p) | FaultKind::SubstKind(p) => {
+                FaultKind::SubstName(p)
+                | FaultKind::SubstBits(p)
+                | FaultKind::SubstKind(p)
+                | FaultKind::PermanentForeign(p) => {
                     if *p < n {
                         if let Some(x) = self.foreign_of(*fi) {
                             ans[*p].0 = SigId::Foreign(x);
@@ -337,7 +349,15 @@ impl DutModel {
 
     /// the layout as signal ids (what a fault-free answer looks like)
     pub fn base_layout(&self) -> Vec<SigId> {
-        self.layout_ids.iter().map(|i| SigId::Test(*i)).collect()
+        let mut l: Vec<SigId> = self.layout_ids.iter().map(|i| SigId::Test(*i)).collect();
+        for (fi, f) in self.spec.faults.iter().enumerate() {
+            if let FaultKind::PermanentForeign(p) = f.kind {
+                if let (true, Some(x)) = (p < l.len(), self.foreign_of(fi)) {
+                    l[p] = SigId::Foreign(x);
+                }
+            }
+        }
+        l
     }
 }
 
@@ -633,6 +653,7 @@ impl FaultKind {
             FaultKind::SubstName(_) => "substName",
             FaultKind::SubstBits(_) => "substBits",
             FaultKind::SubstKind(_) => "substKind",
+            FaultKind::PermanentForeign(_) => "permanentForeign",
             FaultKind::Value(..) => "value",
         }
     }
@@ -647,7 +668,8 @@ impl FaultKind {
             | FaultKind::Dup(p)
             | FaultKind::SubstName(p)
             | FaultKind::SubstBits(p)
-            | FaultKind::SubstKind(p) => a.push(J::u(*p)),
+            | FaultKind::SubstKind(p)
+            | FaultKind::PermanentForeign(p) => a.push(J::u(*p)),
             FaultKind::Swap(p, q) => {
                 a.push(J::u(*p));
                 a.push(J::u(*q));
@@ -676,6 +698,7 @@ impl FaultKind {
             "substName" => FaultKind::SubstName(p(1)?),
             "substBits" => FaultKind::SubstBits(p(1)?),
             "substKind" => FaultKind::SubstKind(p(1)?),
+            "permanentForeign" => FaultKind::PermanentForeign(p(1)?),
             "swap" => FaultKind::Swap(p(1)?, p(2)?),
             "value" => FaultKind::Value(
                 p(1)?,
